@@ -40,11 +40,14 @@ HVAL.update({0: False, 1: True, 2: "MultiplexHypergraph", 3: "Hypergraph"})
 VAL_REV = {json.dumps(v, sort_keys=True): k for k, v in VAL.items()}
 HVAL_REV = {json.dumps(v, sort_keys=True): k for k, v in HVAL.items()}
 FIELDS = [100, 101, 102]
+# node labels / layer names per rank; they include the falsy labels 0 and '' and layer names equal to node labels
 LABELINGS = [
     {"nodes": [0, 1, 2, 3, 4, 5], "layers": ["A", "B", "C"]},
-    {"nodes": [10, 13, 21, 22, 40, 57], "layers": ["social", "work", "x"]},
-    {"nodes": ["a", "b", "ba", "c", "d", "zz"], "layers": ["L1", "L2", "L3"]},
+    {"nodes": [10, 13, 21, 22, 40, 57], "layers": ["", "work", "x"]},
+    {"nodes": ["", "a", "ba", "c", "d", "zz"], "layers": ["L1", "L2", "L3"]},
     {"nodes": [3, 4, 8, 9, 11, 12], "layers": [7, 8, 9]},
+    {"nodes": [0, 1, 2, 3, 4, 5], "layers": [0, 1, 2]},
+    {"nodes": ["a", "b", "c", "d", "e", "f"], "layers": ["a", "b", "c"]},
 ]
 
 
@@ -65,6 +68,13 @@ def items(l):
 
 def fkey(nodes, layer):
     return f"{layer};{fnats(sorted(nodes))}"
+
+
+def pyw(q, flip):
+    """python value of a weight of q quanta; integral values are sent as int or as float (1 vs 1.0)"""
+    if q % 4:
+        return q / 4
+    return float(q // 4) if flip else q // 4
 
 
 def fq(w):
@@ -363,14 +373,14 @@ class Real:
             elif t == "addedge":
                 kw = {}
                 if op[3] is not None:
-                    kw["weight"] = op[3] / 4 if op[3] % 4 else op[3] // 4
+                    kw["weight"] = pyw(op[3], (len(op[1]) + op[2] + op[3]) % 2)
                 if op[4] is not None:
                     kw["metadata"] = self.md(op[4])
                 h.add_edge(self.e(op[1]), self.ll[op[2]], **kw)
             elif t == "addedges":
                 kw = {}
                 if op[3] is not None:
-                    kw["weights"] = [w / 4 for w in op[3]]
+                    kw["weights"] = [pyw(w, (i + len(op[1])) % 2) for i, w in enumerate(op[3])]
                 if op[4] is not None:
                     kw["metadata"] = [self.md(m) for m in op[4]]
                 h.add_edges([self.e(r) for r in op[1]], [self.ll[l] for l in op[2]], **kw)
@@ -382,7 +392,7 @@ class Real:
                 else:
                     h.remove_node(self.nl[op[1]])
             elif t == "setw":
-                h.set_weight(self.e(op[1]), self.ll[op[2]], op[3] / 4 if op[3] % 4 else op[3] // 4)
+                h.set_weight(self.e(op[1]), self.ll[op[2]], pyw(op[3], (len(op[1]) + op[3]) % 2))
             elif t == "sethmeta":
                 h.set_hypergraph_metadata(self.hmd(op[1]))
             elif t == "setattrh":
@@ -566,7 +576,7 @@ def gen_case(rng):
 
     def weight(ok=True):
         if weighted or not ok:
-            return rng.choice([1, 2, 4, 4, 6, 8, 10])
+            return rng.choice([0, 1, 2, 4, 4, 6, 8, 10])
         return rng.choice([None, None, 4])
 
     hm0 = []
@@ -594,13 +604,13 @@ def gen_case(rng):
         r = rng.random()
         if r < 0.30:
             e, l = raw(), rng.randrange(nl)
-            w = weight() if rng.random() < 0.93 else 8
+            w = weight() if rng.random() < 0.93 else rng.choice([8, 0])
             if weighted and rng.random() < 0.2:
                 w = None
             ops.append(["addedge", e, l, w, gen_md(rng)])
             present.add((tuple(sorted(e)), l))
         elif r < 0.42:
-            k = rng.randint(1, 4)
+            k = rng.choice([0, 1, 1, 2, 2, 3, 4])
             raws, ls = [], []
             for _ in range(k):
                 e = raw()
@@ -614,7 +624,7 @@ def gen_case(rng):
                     ls.append(rng.randrange(nl))
             ws = None
             if rng.random() < (0.7 if weighted else 0.25):
-                ws = [rng.choice([1, 2, 4, 6, 8]) for _ in raws]
+                ws = [rng.choice([0, 1, 2, 4, 4, 6, 8]) for _ in raws]
                 if rng.random() < 0.08:
                     ws = ws[:-1] if rng.random() < 0.5 else ws + [4]
             mds = [gen_md(rng, 0) for _ in raws] if rng.random() < 0.3 else None
@@ -642,7 +652,8 @@ def gen_case(rng):
                 rng.shuffle(e)
             else:
                 e, l = raw(), rng.randrange(nl)
-            ops.append(["setw", e, l, weight() or 4 if rng.random() < 0.9 else 6])
+            w = weight() if rng.random() < 0.9 else rng.choice([6, 0])
+            ops.append(["setw", e, l, 4 if w is None else w])
         elif r < 0.75:
             ops.append(["addnode", rng.randrange(n), gen_md(rng)])
         elif r < 0.79:
@@ -691,8 +702,9 @@ def gen_case(rng):
 
 def digest_queries(case, qrng):
     n, nl, pool = case["n"], case["nl"], case["pool"]
+    KS = [0, 0, 1, 1, 2, 2, 3, 4, 5]      # sizes / orders asked on their own: 0 and 1 (falsy / boundary), above the maximum
     qs = [["nodes"], ["nodesmeta"], ["edges"], ["edgesmeta"], ["weights"], ["layers"], ["inuse"], ["hmeta"], ["dsmeta"],
-          ["weighted"], ["degseq", "a"], ["degseq", f"s{qrng.randint(0, 4)}"], ["degseq", f"o{qrng.randint(0, 3)}"],
+          ["weighted"], ["degseq", "a"], ["degseq", f"s{qrng.choice(KS)}"], ["degseq", f"o{qrng.choice(KS)}"],
           ["aggnodes"], ["aggedges"], ["agghmeta"], ["aggweighted"]]
     if qrng.random() < 0.3:
         qs.append(["degseq", "b"])
@@ -700,10 +712,10 @@ def digest_queries(case, qrng):
         qs.append(["layermeta", l])
     for x in range(n):
         qs.append(["incident", x, "a"])
-        k = qrng.randint(0, 4)
-        qs.append(["degree", x, qrng.choice(["a", f"s{k}", f"o{k}", f"s{k}", "b"])])
-        if qrng.random() < 0.3:
-            qs.append(["incident", x, qrng.choice([f"s{k}", f"o{max(k - 1, 0)}"])])
+        qs.append(["degree", x, qrng.choice(["a", "b", f"s{qrng.choice(KS)}", f"s{qrng.choice(KS)}", f"o{qrng.choice(KS)}",
+                                             f"o{qrng.choice(KS)}"])])
+        if qrng.random() < 0.4:
+            qs.append(["incident", x, qrng.choice([f"s{qrng.choice(KS)}", f"o{qrng.choice(KS)}"])])
     for e in pool:
         e2 = list(e)
         qrng.shuffle(e2)
